@@ -1,5 +1,6 @@
 import Driver.Util
 import Driver.Chunker
+import Driver.Hashes
 open Xet.Drv
 
 def dispatch (blob : Blob) (line : String) : String :=
@@ -8,6 +9,7 @@ def dispatch (blob : Blob) (line : String) : String :=
   | [] => ""
   | cmd :: rest =>
     if cmd == "chunker" then handleChunker blob rest
+    else if cmd.startsWith "hash" || cmd.startsWith "hex." then handleHash blob cmd rest
     else "bad-op"
 
 /-- usage: xetdriver <ops.txt> <blob.bin> <model.out> -/
